@@ -181,6 +181,59 @@ def unit_override_lines(i):
     return ''.join(f'Units:{n}, {u}\n' for n, u in dict(picks).items())
 
 
+def override(p, pairs, drop=()):
+    """replace / append (name, value) pairs in a configuration, dropping the names in `drop`; escalation start years are kept in range"""
+    names = {k for k, _ in pairs} | set(drop)
+    out = [(k, v) for k, v in p if k not in names] + [(k, configs.fmt(v)) for k, v in pairs]
+    return [(k, str(min(int(v), 100)) if k.endswith('Escalation Start Year') else v) for k, v in out]
+
+
+COST_INPUTS = ('Total Capital Cost', 'Total O&M Cost', 'Well Drilling and Completion Capital Cost', 'Reservoir Stimulation Capital Cost',
+               'Surface Plant Capital Cost', 'Field Gathering System Capital Cost', 'Exploration Capital Cost', 'Wellfield O&M Cost',
+               'Surface Plant O&M Cost', 'Water Cost')
+ADDON = [('Do AddOn Calculations', 'True'), ('AddOn Nickname 1', 'a1'), ('AddOn CAPEX 1', 12.5), ('AddOn OPEX 1', 0.35),
+         ('AddOn Electricity Gained 1', 21000), ('AddOn Heat Gained 1', 3300), ('AddOn Profit Gained 1', 1.25)]
+REDRILL = [('Reservoir Model', 4), ('Drawdown Parameter', 0.02), ('Maximum Drawdown', 0.12), ('Plant Lifetime', 25)]
+FRACTURES = lambda shape, volopt: [('Fracture Shape', shape), ('Fracture Height', 700), ('Fracture Width', 500), ('Number of Fractures', 12),
+                                   ('Fracture Separation', 60), ('Reservoir Volume Option', volopt), ('Reservoir Volume', '3e8')]
+
+
+def targeted(ctx):
+    """configurations aimed at the guard conjunctions of the specification that random generation reaches rarely: fixed total capital /
+    O&M cost with and without redrilling, every fracture shape x reservoir-volume option, add-on and S-DAC-GT sections in every
+    sub-branch, non-pumped production wells; all with non-neutral cost components"""
+    rnd = ctx.rng
+    T = []
+
+    def add(name, pairs, drop=(), **kw):
+        base = configs.synthetic(rnd, addons=False, overpressure=False, **{'resmodel': 4, 'tspy': rnd.choice([1, 2, 4]), **kw})
+        T.append((f'target:{name}', runner.params_to_text(override(base, pairs, drop))))
+
+    for j, eu in enumerate([1, 2, 31] if ctx.quick else configs.ENDUSES):
+        pl = 2 if eu != 2 else 9
+        add(f'capfixed+redrill-eu{eu}', REDRILL + [('Total Capital Cost', 61.7 + j)], drop=['Total O&M Cost'], enduse=eu, plant=pl, econ=1 + j % 3)
+        add(f'capfixed+oamfixed-eu{eu}', [('Total Capital Cost', 48.3 + j), ('Total O&M Cost', 2.45 + j), ('Maximum Drawdown', 1)], enduse=eu, plant=pl, econ=1 + (j + 1) % 3)
+        add(f'redrill+components-eu{eu}', REDRILL + [('Well Drilling and Completion Capital Cost', 17.3), ('Reservoir Stimulation Capital Cost', 3.9)],
+            drop=['Total Capital Cost', 'Total O&M Cost'], enduse=eu, plant=pl, econ=1 + (j + 2) % 3)
+    for j, pl in enumerate(configs.HEAT_PLANTS if ctx.quick else configs.HEAT_PLANTS * 2):
+        if pl == 7 and ctx.quick:
+            continue
+        add(f'oamfixed-plant{pl}', [('Total O&M Cost', 1.85 + j)], drop=['Total Capital Cost'], enduse=2, plant=pl, econ=1 + j % 3)
+        add(f'components-plant{pl}', [], drop=COST_INPUTS, enduse=2, plant=pl, econ=1 + (j + 1) % 3)
+    for j, (shape, volopt, rm) in enumerate([(1, 1, 1), (2, 2, 1), (3, 3, 2), (4, 1, 2), (4, 4, 1)]):
+        add(f'fractures-shape{shape}-vol{volopt}-model{rm}', FRACTURES(shape, volopt) + [('Reservoir Model', rm)],
+            drop=['Drawdown Parameter'], resmodel=4, enduse=[1, 2, 31, 1, 2][j], plant=[1, 9, 2, 3, 9][j], life=rnd.choice([5, 10, 20]))
+    for j, eu in enumerate([1, 2, 31, 52] if ctx.quick else configs.ENDUSES):
+        pl = [2, 9, 1, 4][j % 4] if eu != 2 else 9
+        add(f'addons-eu{eu}', ADDON, enduse=eu, plant=pl, econ=1 + j % 3, cy=rnd.choice([1, 2, 4]))
+        add(f'sdac-eu{eu}', [('Do S-DAC-GT Calculations', 'True')], enduse=eu, plant=pl, econ=1 + (j + 1) % 3)
+    add('addons-zero-totals', [('Do AddOn Calculations', 'True')], enduse=1, plant=2)
+    add('addons+sdac', ADDON + [('Do S-DAC-GT Calculations', 'True')], enduse=1, plant=1, econ=3, cy=3)
+    add('artesian', [('Productivity Index', 9.5), ('Injectivity Index', 8.5), ('Production Wellhead Pressure', 400), ('Reservoir Depth', 3.1)],
+        drop=['Reservoir Impedance'], enduse=1, plant=3)
+    return T
+
+
 # near-duplicates of other shipped examples as far as the report writer is concerned: thorough tier only
 QUICK_SKIP = {'Fervo_Project_Cape-2.txt', 'Fervo_Project_Cape-3.txt', 'example_SHR-2.txt', 'example_overpressure2.txt',
               'example_multiple_gradients-2.txt', 'example_PTC.txt', 'example9.txt', 'example1_outputunits.txt'}
@@ -192,6 +245,7 @@ def build_inputs(ctx):
     rnd = ctx.rng
     out = [(c['name'], c['input']) for c in corpus('report')]
     out += [(n, t) for n, t in configs.example_texts(ctx, slow=not ctx.quick) if not (ctx.quick and n in QUICK_SKIP)]
+    out += targeted(ctx)
     ex1 = dict(configs.example_texts(ctx)).get('example1.txt', '')
     for i in range(ctx.n(2, 24)):
         out.append((f'example1+units{i}', ex1 + '\n' + unit_override_lines(i + 1)))
@@ -210,7 +264,7 @@ def build_inputs(ctx):
     for life, cy in sweep:
         tspy = rnd.choice([1, 2, 4, 12]) if life < 60 else rnd.choice([1, 2])
         p = configs.synthetic(rnd, resmodel=4, life=life, cy=cy, tspy=tspy, addons=False)
-        out.append((f'sweep-life{life}-cy{cy}-tspy{tspy}', runner.params_to_text(p)))
+        out.append((f'sweep-life{life}-cy{cy}-tspy{tspy}', runner.params_to_text(override(p, []))))
     for i in range(ctx.n(4, 40)):
         p = configs.synthetic(rnd, resmodel=rnd.choice([3, 4]), addons=False)
         out.append((f'units{i}', runner.params_to_text(p) + unit_override_lines(i)))
